@@ -23,6 +23,8 @@ Decided (DESIGN.md §C12): the explicit integrator Phreeqc::rk_kinetics is a *co
   C12.step      step bookkeeping: the integrated time h_sum advances by h exactly once, only on the accepted branch
                 of the error test; a rejected step increments step_bad; the loop runs while h_sum < kin_time; the step is
                 clamped to the remaining time; rate_sim_time is set to start + kin_time after the loop
+  C12.ratefraction  every rate-evaluating solve of the integrators (rk_kinetics, CVODE right-hand side f, CVODE Jacobian Jac, base and
+                perturbed states) runs at REACTION fraction 0: the whole REACTION amount of the step is applied before integrating
 Not decided: step-size control constants, the CVODE path, non-negativity, agreement with closed-form solutions.
 """
 from decimal import Decimal
@@ -299,7 +301,7 @@ def run(P, R, tier):
     f = P.one("Phreeqc::rk_kinetics")
     ctx = Ctx(f)
     where = dict(file=f["file"], function=f["q"])
-    rx = R.rule("C12.extract", "stage formulas, stage times, final weights and error weights of rk_kinetics are exact rational linear combinations; reaching definitions of one stage agree", minimum=13)
+    rx = R.rule("C12.extract", "stage formulas, stage times, final weights and error weights of rk_kinetics are exact rational linear combinations; reaching definitions of one stage agree", minimum=12)
     # Every per-component loop `for (j = 0; j < kinetics_ptr->Get_kinetics_comps().size(); j++)` iterates over the same,
     # loop-invariant range and touches only component j (Set_moles/Get_moles on &comps[j], rk_moles[s*n + j]).  The
     # formulas are therefore analysed for one generic component: each such loop is replaced by a single execution of
@@ -610,6 +612,7 @@ def run(P, R, tier):
     step_rule(P, R, f, cfg, where)
     transfer_rule(P, R)
     cvode_restart_rule(P, R)
+    ratefraction_rule(P, R)
     errmax_rule(P, R)
     clamp_rule(P, R)
     trialreset_rule(P, R)
@@ -891,6 +894,41 @@ def cvode_restart_rule(P, R):
         R.ok("C12.cvode", "remaining", "tout1 = tout - sum_t")
     else:
         R.violation("C12.cvode", "remaining", "the restart no longer integrates the remaining time tout - sum_t", line=times[0][1], **where)
+
+
+def ratefraction_rule(P, R):
+    """The integrators evaluate rates by solving the equilibrium system at a trial state: set_and_run_wrapper(.., use_kinetics = TRUE, ..,
+    step_fraction).  Before the integration starts the whole REACTION amount of the step has been applied (the call with
+    use_kinetics = FALSE carries the step's fraction), so every rate evaluation runs at fraction 0 - in rk_kinetics, in the CVODE
+    right-hand side f and in the CVODE Jacobian Jac, base and perturbed states alike.  A rate evaluation at another fraction integrates
+    a different system (f) or differentiates across two systems (Jac).  The one final solve after a CVODE step (`previous solution plus
+    net reaction`) is not a rate evaluation and carries 1.0."""
+    RULE = "C12.ratefraction"
+    R.rule(RULE, "every rate-evaluating solve (set_and_run_wrapper with use_kinetics TRUE) inside rk_kinetics, f and Jac runs at REACTION fraction 0", minimum=12)
+    n = 0
+    for q in ("Phreeqc::rk_kinetics", "Phreeqc::f", "Phreeqc::Jac"):
+        fs = [g for g in P.fns_named(q) if g.get("body")]
+        if not fs:
+            R.anchor_missing(RULE, "%s not found" % q)
+            continue
+        f = fs[0]
+        for c in T.calls(f["body"]):
+            if T.callee_name(c) != "set_and_run_wrapper" or len(c[4]) != 5:
+                continue
+            uk = T.strip_casts(c[4][2])
+            if not (uk[0] == "Lit" and str(uk[3]) in ("1", "true")):
+                continue
+            n += 1
+            a = T.strip_casts(c[4][4])
+            inst = "%s@%d" % (q.split("::")[-1], c[1])
+            if a[0] == "Lit" and float(str(a[3]).rstrip("fFlL")) == 0.0:
+                R.ok(RULE, inst, "fraction 0")
+            else:
+                R.violation(RULE, inst, "this rate evaluation solves the system with REACTION fraction `%s`; the sibling evaluations (and the base state) use 0: %s"
+                            % (T.text(a)[:30], "the Jacobian column is a difference across two different systems divided by 1e-13" if q.endswith("Jac")
+                               else "the integrator sees rates of a system with more reactant than the step contains"), file=f["file"], line=c[1], function=f["q"])
+    if n < 12:
+        R.anchor_missing(RULE, "only %d rate-evaluating solves found (rk_kinetics 9, f 1, Jac 2)" % n)
 
 
 def transfer_rule(P, R, RULE="C12.transfer"):
